@@ -161,6 +161,45 @@ def run(ctx):
         ctx.sample({'text': info[obs[40]['id']][0], 'parts': obs[40]['parts']})
     ctx.extra['code_to_spec'] = {'bsd_decoders': len(names), 'exempt': sorted(EXEMPT), 'error_values': len(errs),
                                  'observations': nv}
+    # the RESULT TEXT itself inside a path of the call, through the formatter with colour on and off: the line is the trace's
+    # text, whole (colouring never changes the text; the call part does not depend on the END record)
+    import io as _io
+    from .pipeline import Dump, strip_ansi
+    from .pairing import PATH_CLASSES
+    from pykdebugparser.pykdebugparser import PyKdebugParser
+    path_names = [n for n in names if AUDIT[n].get('cls') in PATH_CLASSES]
+    nfmt = 0
+    for i in range(30 if ctx.quick else 400):
+        name = path_names[rnd.randrange(len(path_names))]
+        S = pr.distinct_words(name, 'start')
+        E = [rnd.choice([0, 0, 2, 13, 9999])] + pr.distinct_words(name, 'end')[1:]
+        t0 = pr.render(name, S, E, [b'/x', b'/y'])
+        tk = tokenize(t0) if t0 else None
+        if tk is None:
+            continue
+        R = tk[2]
+        w = pr.w
+        path2 = b'/tmp/log, ' + R.encode() + b'/out'
+        stream = [w.sys(name, 1, 1, tuple(S))] + w.lookup(1, path2, vid=7) + w.lookup(1, b'/second, ' + R.encode(), vid=7) + [w.sys(name, 2, 1, tuple(E))]
+        d = Dump(w, stream, [])
+        lines = {}
+        for col in (False, True):
+            pk = PyKdebugParser()
+            pk.color = col
+            pk.show_timestamp = pk.show_process = pk.show_tid = False
+            try:
+                ls = [strip_ansi(x) for x in pk.formatted_traces(_io.BytesIO(d.blob), w.codes)]
+                lines[col] = ls[-1] if ls else None
+            except Exception as ex:
+                lines[col] = 'RAISED ' + repr(ex)
+        want = pr.render(name, S, E, [path2, b'/second, ' + R.encode()])
+        nfmt += 1
+        if lines[False] != want or lines[True] != want:
+            ctx.violation('C10/formatted-line-differs@%s' % ('colour' if lines[False] == want else 'plain'),
+                          '%s whose path contains its own result text %r: trace text %r, formatted plain %r, coloured (escapes removed) %r'
+                          % (name, R, want, lines[False], lines[True]),
+                          {'kind': 'render', 'name': name, 'start': [hex(x) for x in S], 'end': [hex(x) for x in E]})
+    ctx.extra['formatted_lines_with_result_text_in_path'] = nfmt
     from .render import report_raised, report_unstable
     report_raised(ctx, pr)
     report_unstable(ctx, pr)
